@@ -5,6 +5,13 @@ namespace Tv.Handlers
 open Tv Tv.Proto
 
 def c07 (fn : String) (r : Req) : Option (String × String) :=
+  -- `accmut`: the mutable contiguous view (when offered) is the logical sequence; sorting in place
+  -- sorts that sequence (null-free series)
+  if fn = "accmut" then
+    let xs : List Rat := (r.series "xs").map (·.getD 0)
+    let line := showList showRat xs ++ ";" ++ showList showRat (xs.mergeSort (fun a b => decide (a ≤ b)))
+    some (line, line)
+  else
   if fn ≠ "acc" then none else
   let xs := r.series "xs"
   let n := xs.length
